@@ -22,6 +22,7 @@ import contextlib
 import io
 import os
 import re
+import signal
 import time
 import warnings
 import zlib
@@ -113,6 +114,26 @@ def build_format(st, sig):
         return "crash", "%s: %s" % (type(e).__name__, e)
 
 
+class SimTimeout(Exception):
+    pass
+
+
+@contextlib.contextmanager
+def cpu_limit(seconds):
+    """Bound the CPU time (not the wall time: immune to machine load) one simulation may take; a simulation that does
+    not terminate (e.g. a formatting helper looping on an unexpected value) becomes an exception instead of a hang."""
+    def handler(signum, frame):
+        raise SimTimeout("no result within %d s of CPU time" % seconds)
+    old = signal.signal(signal.SIGVTALRM, handler)
+    signal.setitimer(signal.ITIMER_VIRTUAL, seconds)
+    try:
+        yield
+    finally:
+        signal.setitimer(signal.ITIMER_VIRTUAL, 0)
+        signal.signal(signal.SIGVTALRM, old)
+
+
+_TIMEOUTS = [0]
 _REC = re.compile(r"<(\d+)\|(.*?)>\n(?=<\d+\||\Z)", re.S)
 _MARK = "\n@@C20-TICK-%d@@\n"
 _MARK_RE = re.compile(r"\n@@C20-TICK-(\d+)@@\n")
@@ -174,15 +195,24 @@ def run_print_batch(cases):
     sim.add_testbench(tb)
     buf = io.StringIO()
     try:
-        with contextlib.redirect_stdout(buf):
+        with contextlib.redirect_stdout(buf), cpu_limit(4 if len(live) == 1 else 30):
             sim.run()
     except Exception as e:
+        why = "simulation raised %s: %s" % (type(e).__name__, e)
+        if isinstance(e, SimTimeout):
+            _TIMEOUTS[0] += 1
         if len(live) == 1:
-            status[live[0]] = ("crash", "simulation raised %s: %s" % (type(e).__name__, e))
-            return status
-        # find the culprit(s): run every live case alone
-        for k in live:
-            status[k] = run_print_batch([cases[k]])[0]
+            status[live[0]] = ("crash", why)
+        elif _TIMEOUTS[0] > 4:
+            # many non-terminating simulations already isolated in this worker: do not spend minutes on each batch
+            for k in live:
+                status[k] = ("crash", why + " (in a batch of %d Prints; culprit not isolated)" % len(live))
+        else:
+            # find the culprit(s) by bisection: each half in a module of its own
+            half = len(live) // 2
+            for part in (live[:half], live[half:]):
+                for k, stt in zip(part, run_print_batch([cases[k] for k in part])):
+                    status[k] = stt
         return status
     out = buf.getvalue()
     parts = _MARK_RE.split(out)
@@ -211,11 +241,11 @@ def run_print_batch(cases):
 
 
 def run_assert_batch(cases):
-    """cases: dicts with st, w, s, raw.  One module with one Assert (even k) / Assume (odd k) per case under
-    `If(sel == k)`, condition constant zero; one simulation run per case (Simulator.reset() in between).
+    """cases: dicts with st, w, s, raw, kind ("assert" | "assume"), form.  One module with one Assert / Assume per case
+    under `If(sel == k)`, condition constant zero; one simulation run per case (Simulator.reset() in between).
     k = 0, 1 are calibration statements with the literal message "CAL" from which the message prefixes are learnt.
     Returns list per case: ("ok", message text after the prefix) | ("noraise", "") | ("reject"/"crash", msg)."""
-    from amaranth.hdl import Module, Signal, Format, Assert, Assume
+    from amaranth.hdl import Module, Signal, Assert, Assume
     from amaranth.sim import Simulator, Period
     m = Module()
     sel = Signal(16)
@@ -237,7 +267,7 @@ def run_assert_batch(cases):
             status[j] = (st, fmt)
             continue
         with m.If(sel == k):
-            m.d.sync += (Assert if k % 2 == 0 else Assume)(zero, fmt)
+            m.d.sync += (Assert if c["kind"] == "assert" else Assume)(zero, fmt)
         plan.append((j, k, key, c["raw"]))
     sim = Simulator(m)
     sim.add_clock(Period(MHz=1))
@@ -255,30 +285,33 @@ def run_assert_batch(cases):
         cur.update(k=k, key=key, raw=raw)
         sim.reset()
         try:
-            with contextlib.redirect_stdout(io.StringIO()):
+            with contextlib.redirect_stdout(io.StringIO()), cpu_limit(10):
                 sim.run()
         except AssertionError as e:
             return str(e)
         return None
-    pre = []
-    for k in (0, 1):
+    pre = {}
+    for k, kind in ((0, "assert"), (1, "assume")):
         msg = one(k, None, 0)
-        if msg is None or not msg.endswith("CAL"):
-            raise MachineryError("calibration %s with a zero condition did not raise AssertionError(...CAL): %r"
-                                 % ("Assert" if k == 0 else "Assume", msg))
-        pre.append(msg[:-3])
-    for j, k, key, raw in plan:
+        # no AssertionError at all: every case of this kind is reported as "noraise" below
+        pre[kind] = None if msg is None else (msg[:-3] if msg.endswith("CAL") else "<message %r does not carry its text> " % msg)
+    for n, (j, k, key, raw) in enumerate(plan):
+        kind = cases[j]["kind"]
         try:
             msg = one(k, key, raw)
         except Exception as e:
             status[j] = ("crash", "simulation raised %s: %s" % (type(e).__name__, e))
-            continue
-        if msg is None:
+            # the simulator may be left in an undefined state: continue with a fresh one
+            rest = [jj for jj, _, _, _ in plan[n + 1:]]
+            for jj, stt in zip(rest, run_assert_batch([cases[jj] for jj in rest])):
+                status[jj] = stt
+            return status
+        if msg is None or pre[kind] is None:
             status[j] = ("noraise", "")
-        elif not msg.startswith(pre[k % 2]):
-            status[j] = ("ok", "<prefix %r missing> %s" % (pre[k % 2], msg))
+        elif not msg.startswith(pre[kind]):
+            status[j] = ("ok", "<prefix %r missing> %s" % (pre[kind], msg))
         else:
-            status[j] = ("ok", msg[len(pre[k % 2]):])
+            status[j] = ("ok", msg[len(pre[kind]):])
     return status
 
 
@@ -377,14 +410,15 @@ def _fmt_worker(job):
         for c, fp in zip(cases, res["fps"][-len(cases):] if cases else []):
             if c["cls"] == "accept" and c["texts"] and (fp + seed) % assert_mod == 0:
                 raw, text = c["texts"][(fp >> 8) % len(c["texts"])]
-                chosen.append({"st": c["st"], "w": c["w"], "s": c["s"], "raw": raw, "text": text, "form": c["form"]})
+                chosen.append({"st": c["st"], "w": c["w"], "s": c["s"], "raw": raw, "text": text, "form": c["form"],
+                               "kind": "assume" if (fp >> 4) & 1 else "assert"})
         for off in range(0, len(chosen), ASSERT_BATCH):
             part = chosen[off:off + ASSERT_BATCH]
             status = run_assert_batch(part)
             for j, (c, stt) in enumerate(zip(part, status)):
                 res["asserts"] += 1
                 base = {"spec": c["st"], "shape": _shname(c["w"], c["s"]), "part": "text", "operand": c["form"],
-                        "via": "assert" if j % 2 == 0 else "assume", "value": c["raw"]}
+                        "via": c["kind"], "value": c["raw"]}
                 if stt[0] == "ok" and stt[1] == c["text"]:
                     continue
                 if len(res["mism"]) < 60:
@@ -482,7 +516,7 @@ class TimingRig:
         buf = io.StringIO()
         msg = None
         try:
-            with contextlib.redirect_stdout(buf):
+            with contextlib.redirect_stdout(buf), cpu_limit(10):
                 self.sim.run()
         except AssertionError as e:
             msg = str(e)
@@ -767,7 +801,7 @@ def _binding_demo(progs):
         bad = dict(c, texts=[(0, c["texts"][0][1]), (200, c["texts"][1][1].replace("c8", "c9"))])
         if not compare_case(bad, st):
             raise MachineryError("binding demo: a corrupted expected text was not noticed")
-        a = run_assert_batch([{"st": "05d", "w": 4, "s": True, "raw": 15}])[0]
+        a = run_assert_batch([{"st": "05d", "w": 4, "s": True, "raw": 15, "kind": "assume"}])[0]
         if a != ("ok", "-0001"):
             raise MachineryError("binding demo: assert message path gives %r for -1 with 05d" % (a,))
         rig = TimingRig(progs[8])          # program 9: Print(3); If(b){Assert(1, a); Print(2)}
@@ -813,7 +847,8 @@ def replay(ctx, rep):
             print("amaranth printed: %r;  Fmt: %r;  str.format: %r" % (st[1], m["expected"], py_text(m["spec"], w, s, m["value"])))
             bad = st[0] != "ok" or st[1].get(m["value"]) != [m["expected"]]
         else:
-            st = run_assert_batch([{"st": m["spec"], "w": w, "s": s, "raw": m["value"], "form": m.get("operand", "sig")}] * 2)[0 if m["via"] == "assert" else 1]
+            st = run_assert_batch([{"st": m["spec"], "w": w, "s": s, "raw": m["value"], "form": m.get("operand", "sig"),
+                                    "kind": m["via"]}])[0]
             print("amaranth message: %r;  Fmt: %r" % (st, m["expected"]))
             bad = st != ("ok", m["expected"])
         if bad:
